@@ -46,6 +46,19 @@ fn reference_with<I>(case: &Case, precompiles: &[(Address, DynParallelPrecompile
 where
     I: Inspector<crate::reference::RefCtx<Arc<FaultDb>>>,
 {
+    reference_with_raw(case, precompiles, &[], with_reverts, inspector)
+}
+
+fn reference_with_raw<I>(
+    case: &Case,
+    precompiles: &[(Address, DynParallelPrecompile)],
+    raw_precompiles: &[(Address, alloy_evm::precompiles::DynPrecompile)],
+    with_reverts: bool,
+    inspector: I,
+) -> (RefRun, I)
+where
+    I: Inspector<crate::reference::RefCtx<Arc<FaultDb>>>,
+{
     let db = Arc::new(FaultDb::new(case.db.clone(), FaultPlan::default()));
     let db2 = db.clone();
     let addrs = probe_addrs(case);
@@ -54,6 +67,7 @@ where
         preload_beneficiary: true,
         with_reverts,
         precompiles,
+        raw_precompiles,
         probe_addrs: &addrs,
         probe_slots: &slots,
         before_readback: &move || db2.disarm(),
@@ -195,9 +209,110 @@ pub fn test_precompiles(layout: &Layout, slots: u64, stats: Arc<PcStats>) -> Vec
                 let data = input.data().to_vec();
                 let a = table_addr(small(word(&data, 0), table));
                 let val = input.state().sload(a, U256::ZERO)?.data;
-                if val % U256::from(8u64) == U256::from(7u64) {
+                if val % U256::from(4u64) == U256::from(3u64) {
                     stats.fatal_returns.fetch_add(1, Ordering::Relaxed);
-                    return Err(ParallelPrecompileError::Fatal(PrecompileError::Fatal("verif fatal-if: slot 0 is 7 mod 8".into())));
+                    return Err(ParallelPrecompileError::Fatal(PrecompileError::Fatal("verif fatal-if: slot 0 is 3 mod 4".into())));
+                }
+                Ok(out(val, 200, reservoir))
+            }),
+        ));
+    }
+    v
+}
+
+/// The same four precompiles written directly against Alloy's unrestricted `PrecompileInput` /
+/// `EvmInternals`, with the semantics the facade promises spelled out by hand: a mutation in a
+/// static context halts the precompile *before any change*, even if the implementation would have
+/// ignored the refusal; everything goes through the journal. Nothing of grevm's `precompile.rs`
+/// (facade, sticky fault, adapter, cache switch) is involved, so a defect there cannot cancel out.
+pub fn raw_reference_precompiles(layout: &Layout, slots: u64, stats: Arc<PcStats>) -> Vec<(Address, alloy_evm::precompiles::DynPrecompile)> {
+    use alloy_evm::precompiles::{DynPrecompile, PrecompileInput};
+    let table = layout.table;
+    const STATIC_MSG: &str = "state change during static call";
+    fn fatal(e: impl std::fmt::Display) -> PrecompileError {
+        PrecompileError::Fatal(format!("reference precompile: {e}"))
+    }
+    let mut v = Vec::new();
+    {
+        let stats = stats.clone();
+        v.push((
+            layout.pc(0),
+            DynPrecompile::new_stateful(PrecompileId::custom("verif-ledger"), move |mut input: PrecompileInput<'_>| {
+                stats.calls.fetch_add(1, Ordering::Relaxed);
+                let reservoir = input.reservoir;
+                if input.gas < 700 {
+                    return Ok(PrecompileOutput::halt(PrecompileHalt::OutOfGas, reservoir));
+                }
+                let data = input.data.to_vec();
+                let a = table_addr(small(word(&data, 0), table));
+                let b = table_addr(small(word(&data, 1), table));
+                let slot = U256::from(small(word(&data, 2), slots));
+                let mode = small(word(&data, 3), 4);
+                let bal = input.internals.load_account(a).map_err(fatal)?.data.info.balance;
+                let val = input.internals.sload(b, slot).map_err(fatal)?.data;
+                match mode {
+                    0 | 1 if input.is_static => {
+                        return Ok(PrecompileOutput::halt(PrecompileHalt::other_static(STATIC_MSG), reservoir));
+                    }
+                    0 => {
+                        input.internals.load_account_mut(a).map_err(fatal)?.data.set_balance(bal.saturating_add(U256::from(1u64)));
+                    }
+                    1 => {
+                        input.internals.sstore(b, slot, val.wrapping_add(U256::from(1u64))).map_err(fatal)?;
+                    }
+                    _ => {}
+                }
+                Ok(out(bal ^ val, 700, reservoir))
+            }),
+        ));
+    }
+    {
+        let stats = stats.clone();
+        v.push((
+            layout.pc(1),
+            DynPrecompile::new_stateful(PrecompileId::custom("verif-echo"), move |mut input: PrecompileInput<'_>| {
+                stats.calls.fetch_add(1, Ordering::Relaxed);
+                let reservoir = input.reservoir;
+                let data = input.data.to_vec();
+                let a = table_addr(small(word(&data, 0), table));
+                let slot = U256::from(small(word(&data, 1), slots));
+                let bal = input.internals.load_account(a).map_err(fatal)?.data.info.balance;
+                let val = input.internals.sload(a, slot).map_err(fatal)?.data;
+                Ok(out(bal.wrapping_add(val), 300, reservoir))
+            }),
+        ));
+    }
+    {
+        let stats = stats.clone();
+        v.push((
+            layout.pc(2),
+            DynPrecompile::new_stateful(PrecompileId::custom("verif-mutator"), move |mut input: PrecompileInput<'_>| {
+                stats.calls.fetch_add(1, Ordering::Relaxed);
+                let reservoir = input.reservoir;
+                if input.is_static {
+                    return Ok(PrecompileOutput::halt(PrecompileHalt::other_static(STATIC_MSG), reservoir));
+                }
+                let data = input.data.to_vec();
+                let a = table_addr(small(word(&data, 0), table));
+                let slot = U256::from(small(word(&data, 1), slots));
+                input.internals.sstore(a, slot, word(&data, 2)).map_err(fatal)?;
+                input.internals.load_account_mut(a).map_err(fatal)?.data.set_balance(U256::from(small(word(&data, 3), 1000)));
+                Ok(out(U256::from(1u64), 400, reservoir))
+            }),
+        ));
+    }
+    {
+        let stats = stats.clone();
+        v.push((
+            layout.pc(3),
+            DynPrecompile::new_stateful(PrecompileId::custom("verif-fatal-if"), move |mut input: PrecompileInput<'_>| {
+                stats.calls.fetch_add(1, Ordering::Relaxed);
+                let reservoir = input.reservoir;
+                let data = input.data.to_vec();
+                let a = table_addr(small(word(&data, 0), table));
+                let val = input.internals.sload(a, U256::ZERO).map_err(fatal)?.data;
+                if val % U256::from(4u64) == U256::from(3u64) {
+                    return Err(PrecompileError::Fatal("verif fatal-if: slot 0 is 3 mod 4".into()));
                 }
                 Ok(out(val, 200, reservoir))
             }),
@@ -218,10 +333,10 @@ impl Campaign for C11 {
             family: "precompiles",
             specs: crate::world::MODERN_SPECS,
             txs: (3, 14),
-            n_eoa: 4,
+            n_eoa: if r.chance(1, 2) { 4 } else { 3 },
             n_con: 2,
             n_precompiles: 4,
-            mix: Mix { call: 14, staticcall: 6, delegatecall: 1, sload: 8, sstore: 8, balance: 4, coinbase: 2, terminate: 3, slots: 3, vmax: 3, len: (4, 12), ..Mix::default() },
+            mix: Mix { call: 14, staticcall: if r.chance(1, 2) { 6 } else { 14 }, delegatecall: 1, sload: 8, sstore: 8, balance: 4, coinbase: 2, terminate: 3, slots: 3, vmax: 3, len: (4, 12), ..Mix::default() },
             kind_w: [10, 1, 0, 8],
             ben_roles: &[crate::world::BenRole::PlainEoa, crate::world::BenRole::Sender],
             ..GenParams::default()
@@ -235,8 +350,15 @@ impl Campaign for C11 {
             ..ProfileWeights::default()
         };
         let rc = pick_runcfg(&mut r, case.txs.len(), &pw, 15);
+        // Two references: (a) stock revm with the *same* facade-based precompiles behind grevm's
+        // adapter (what "in-order execution" means for a block with custom precompiles), and
+        // (b) stock revm with hand-written raw precompiles that do not touch grevm's facade at
+        // all. (a) and (b) must agree with each other and with the parallel run.
         let (reference, _) = reference_with(&case, &pcs, rc.with_reverts, revm_inspector::NoOpInspector {});
         let ref_calls = stats.calls.load(Ordering::Relaxed);
+        let raw_stats = Arc::new(PcStats::default());
+        let raw = raw_reference_precompiles(&case.layout, case.slots, raw_stats.clone());
+        let (raw_reference, _) = reference_with_raw(&case, &[], &raw, rc.with_reverts, revm_inspector::NoOpInspector {});
         let plan = FaultPlan::default();
         let out = run_grevm(&case, &rc, &plan, Some(Arc::new(pcs)));
         let mut violations = Vec::new();
@@ -261,6 +383,25 @@ impl Campaign for C11 {
                 violations.push(v);
             }
             violations.extend(tv);
+            // the facade-independent reference
+            let mut facade_diffs = Vec::new();
+            if raw_reference.error != reference.error {
+                facade_diffs.push(format!("in-order result {:?} vs {:?}", reference.error, raw_reference.error));
+            }
+            if let Some(d) = crate::compare::diff_outcomes(&raw_reference.outcomes, &reference.outcomes) {
+                facade_diffs.push(d);
+            }
+            if let Some(d) = crate::compare::diff_bundle(&raw_reference.bundle, &reference.bundle) {
+                facade_diffs.push(d);
+            }
+            if let Some(d) = facade_diffs.first() {
+                violations.push(vio(
+                    "PRECOMPILE",
+                    "C11",
+                    format!("in-order execution through grevm's precompile facade/adapter differs from the same precompiles written against the raw journal interface (static refusal, sticky fault, halt mapping): {d}"),
+                ));
+            }
+            rep.bump("raw_reference_precompile_calls", raw_stats.calls.load(Ordering::Relaxed));
             let bad = stats.inconsistent_reads.load(Ordering::Relaxed);
             if bad > 0 {
                 violations.push(vio("PRECOMPILE", "C11", format!("{bad} repeated façade reads inside one precompile attempt disagreed (or a write was not read back)")));
